@@ -44,6 +44,10 @@ var currentCase *streamCase // for the hang hook
 
 // c05Case judges one faulted load.
 func c05Case(sc *streamCase, idx int, st *Stats) *Violation {
+	if journalFile != "" {
+		scc := *sc
+		journal(&Plan{Harness: 1, Property: "C05", World: World{Readers: sc.Readers, Host: HostSpec{Seed: sc.Seed}}, Extra: map[string]any{"case": scc, "index": idx}})
+	}
 	currentCase = sc
 	defer func() { currentCase = nil }()
 	valid := len(sc.Readers) > 0
